@@ -514,6 +514,25 @@ func genC02(r *Rng, tier string) []Case {
 			}
 		}
 	}
+	// files no writer produces: a request-map key patched into ":url" / ":method" after writing (b1: a second
+	// :url; b2: the deprecated key), and the same for an upper-case key
+	for _, ver := range []version.Version{version.Version1b1, version.Version1b2} {
+		for _, patch := range [][2]string{{"xurl", ":url"}, {"xmethod", ":method"}, {"xurl", "xUrl"}, {"xurl", ":urL"}} {
+			for _, val := range []string{"https://evil.example/", "http://example.com/", "https://example.com/#f", "GET"} {
+				e := mkExchange(r, ver, exOpts{contentType: true, payloadLen: 3, extraReq: [][2]string{{"raw:" + patch[0], val}}})
+				e.SignatureHeaderValue = "label;sig=*AA==*"
+				f := writeFile(e)
+				if f == nil {
+					continue
+				}
+				from := append([]byte{byte(0x40 + len(patch[0]))}, patch[0]...)
+				to := append([]byte{byte(0x40 + len(patch[1]))}, patch[1]...)
+				if bytes.Count(f, from) == 1 {
+					cs = append(cs, Case{"sxg_read", []Sx{B(bytes.Replace(f, from, to, 1))}})
+				}
+			}
+		}
+	}
 	// length-field boundaries and limits (no real signature needed)
 	long := alnumBytes(r, 600000)
 	for _, ver := range sxgVersions {
@@ -757,6 +776,9 @@ func genC01(r *Rng, tier string) []Case {
 			f[j/8] ^= 1 << uint(j%8)
 			cs = append(cs, readVerifyCase(f, t, 0, ft, xt, st))
 		}
+		for j := 0; j < 48 && j < len(file); j++ { // every cut inside the magic, the length fields and the start of the URL
+			cs = append(cs, readVerifyCase(file[:j], t, 0, ft, xt, st))
+		}
 		for k := 0; k < ncut; k++ {
 			j := (k*len(file))/ncut + r.Intn(maxInt(1, len(file)/ncut))
 			if j >= len(file) {
@@ -796,6 +818,20 @@ func genC09(r *Rng, tier string) []Case {
 	d := baseDate
 	mid := [][2]int64{{d + 5, 0}}
 	def := func() exOpts { return exOpts{contentType: true, payloadLen: 20} }
+	// an exchange whose request URL was replaced in memory after signing (never a valid one; several do not parse)
+	for _, ver := range sxgVersions {
+		e := mkExchange(r, ver, exOpts{contentType: true, payloadLen: 20, uri: "https://example.com/index.html"})
+		s := signExchange(e, key, 16, d, d+100, certURL, "https://example.com/v")
+		if !s.ok {
+			continue
+		}
+		ft, st := fetchTab(certURL, s.chain), s.sigTab()
+		for _, uri := range []string{"https://example.com/%zz", "https://exa mple.com/", ":", "", "https://example.com/\x7f", "https://example.com/other", "http://example.com/index.html", "//example.com/index.html", "https://example.com:bad/"} {
+			c := cloneExchange(e)
+			c.RequestURI = uri
+			cs = append(cs, Case{"sxg_verify", []Sx{exchangeInSx(c), Zi(d + 5), Zi(0), statusKnown(c.ResponseStatus), ft, xt, st}})
+		}
+	}
 	reps := 1
 	if tier == "thorough" {
 		reps = 6
@@ -854,7 +890,8 @@ func genC09(r *Rng, tier string) []Case {
 			one(ver, o2, d, d+100, "https://example.com/v", mid)
 		}
 		// b3 cacheability: Cache-Control directive subsets x Expires x status
-		dirs := []string{"\tno-store", "private\t", "\t private", "no-store", "private", "max-age=10", "s-maxage=10", "public", "no-cache", "must-revalidate", "No-Store", " PRIVATE ", "max-age", "public=1", "x-no-store", "no-store=\"a,b\"", "", "max-age=\"1,private\""}
+		dirs := []string{"\tno-store", "private\t", "\t private", "no-store", "private", "max-age=10", "s-maxage=10", "public", "no-cache", "must-revalidate", "No-Store", " PRIVATE ", "max-age", "public=1", "x-no-store", "no-store=\"a,b\"", "", "max-age=\"1,private\"",
+			"max-age=\"", "no-cache=\"", "private=\",\"", "\"", "=", "=private", "no-store=", "public=\"\"", "s-maxage=\"5\"", "\"no-store\"", "max-age=\"5", "max-age=5\""}
 		statuses := []int{200, 203, 204, 206, 300, 301, 404, 405, 410, 414, 501, 201, 202, 302, 303, 307, 308, 400, 403, 500, 503, 100, 199, 299, 418, 451, 599, 600, 999, 1000}
 		for i := 0; i < 40*len(statuses)/10; i++ {
 			o := def()
